@@ -150,10 +150,11 @@ func (n *Node) Campaign() error {
 	return nil
 }
 
-// StepDown is the deferred part of campaignLeader.
+// StepDown is the deferred part of campaignLeader, in its order: the leadership is given up
+// first (the last registered defer), the allocator group is reset afterwards.
 func (n *Node) StepDown() {
-	n.AM.ResetAllocatorGroup(tso.GlobalDCLocation)
 	n.M.ResetLeader()
+	n.AM.ResetAllocatorGroup(tso.GlobalDCLocation)
 }
 
 // Stored returns the stored bound (unix ns; 0 if missing).
@@ -282,6 +283,15 @@ func (w *World) CheckC02() *explore.Violation {
 	if len(w.Bad) > 0 {
 		return &explore.Violation{Key: w.BadKeys[0], Msg: strings.Join(w.Bad, "\n")}
 	}
+	// take-over between the real members of the scenario: what a member grants after it took
+	// over is larger than everything another member had granted before the request began
+	for _, a := range w.Grants {
+		for _, b := range w.Grants {
+			if a.Err == "" && b.Err == "" && a.Who != b.Who && a.Ret < b.Inv && a.hi() >= b.lo() {
+				return &explore.Violation{Key: "takeover-not-larger", Msg: fmt.Sprintf("%s was granted by %s after %s had been granted by %s, and is not larger", b, b.Who, a, a.Who)}
+			}
+		}
+	}
 	for _, g := range w.Grants {
 		if g.Err != "" {
 			continue
@@ -408,6 +418,41 @@ func Handover2(off time.Duration) Admin {
 			w.Request(n, 2)
 			prev = n
 		}
+		sched.SetMember(old)
+	}}
+}
+
+// HandoverBack: node 1 steps down, node 2 campaigns and serves, steps down, node 1 campaigns
+// again (its allocator object has lived through the other member's term) and serves.
+func HandoverBack(off time.Duration) Admin {
+	return Admin{Name: fmt.Sprintf("handover-and-back%+v", off), Run: func(w *World, n1 *Node) {
+		old := sched.SetMember(n1.ID)
+		n1.StepDown()
+		vclock.SetOffset(2, off)
+		sched.SetMember(2)
+		n2 := w.Nodes[2]
+		if err := n2.Campaign(); err == nil {
+			w.Request(n2, 1)
+			w.Request(n2, 2)
+			n2.StepDown()
+			sched.SetMember(n1.ID)
+			if err := n1.Campaign(); err == nil {
+				w.Request(n1, 1)
+			}
+		}
+		sched.SetMember(old)
+	}}
+}
+
+// LostRetry: the leader record disappears behind the member's back (its lease still looks
+// valid locally) and a manual reset to +10 s is tried twice.
+func LostRetry() Admin {
+	return Admin{Name: "lost-leader-record+set-retry", Run: func(w *World, n1 *Node) {
+		sched.PointAt(sched.KUser, "delete leader record")
+		w.St.DeleteDirect(Root + "/leader")
+		old := sched.SetMember(n1.ID)
+		_ = n1.Alloc.SetTSO(TS(10*time.Second, 0))
+		_ = n1.Alloc.SetTSO(TS(10*time.Second, 0))
 		sched.SetMember(old)
 	}}
 }
